@@ -12,7 +12,10 @@ use std::sync::atomic::{AtomicBool, AtomicU64, Ordering};
 use std::sync::Mutex;
 use std::time::{Duration, Instant};
 
-pub const VERIF_DIR: &str = "/verif";
+/// Root of the verification tree: /verif, or $HCV_VERIF_DIR for isolated scratch runs (mutant sweeps).
+pub fn verif_dir() -> String {
+    std::env::var("HCV_VERIF_DIR").unwrap_or_else(|_| "/verif".to_string())
+}
 
 #[derive(Clone, Copy, Debug, PartialEq, Eq)]
 pub enum Tier {
@@ -132,7 +135,7 @@ pub struct Ctx {
 }
 
 fn load_known(prop: &str) -> Vec<Known> {
-    let path = format!("{VERIF_DIR}/known_findings.json");
+    let path = format!("{}/known_findings.json", verif_dir());
     let Ok(txt) = std::fs::read_to_string(&path) else { return vec![] };
     let Ok(v) = serde_json::from_str::<Value>(&txt) else {
         eprintln!("warning: cannot parse {path}");
@@ -314,7 +317,7 @@ impl Ctx {
     }
 
     pub fn write_replay(&self, f: &Failure, case: &Value, stage: &str) -> String {
-        let dir = format!("{VERIF_DIR}/replays");
+        let dir = format!("{}/replays", verif_dir());
         let _ = std::fs::create_dir_all(&dir);
         let body = json!({
             "property": self.prop,
@@ -368,7 +371,7 @@ impl Ctx {
             "violations": violations,
             "threads": self.threads,
         });
-        let dir = format!("{VERIF_DIR}/evidence");
+        let dir = format!("{}/evidence", verif_dir());
         let _ = std::fs::create_dir_all(&dir);
         let path = format!("{dir}/{}.json", self.prop);
         let tmp = format!("{path}.tmp");
